@@ -548,7 +548,7 @@ Lemma serve_w_in fx : forall order rest tm s,
   match serve fx order tm s with Some (s1, tm1) => serve_w fx rest tm1 s1 | None => None end.
 Proof.
   induction order as [|k r IH]; intros rest tm s; [reflexivity|]. cbn [map app serve_w serve].
-  destruct (handle_client_sock (tm k)) as [|a t']; [reflexivity|].
+  destruct (handle_client_sock fx (tm k)) as [|a t']; [reflexivity|].
   destruct (apply fx k a s) as [s'|]; [apply IH|reflexivity].
 Qed.
 
